@@ -1,6 +1,6 @@
 (* Props/C16.v -- the property theorems of C16, and nothing else.  Each is closed by [exact] of a
    lemma proved in C16/, its statement is pinned by [Check], and [Print Assumptions] follows. *)
-From C16 Require Import Casm Vm Roundtrip Denote Step Run.
+From C16 Require Import Casm Vm Roundtrip Denote Step Run Fresh.
 
 (* Every instruction the toolchain can assemble (every operand shape, register, offsets in the
    full i16 range, arbitrary immediate, with or without ap++) encodes to words that cairo-vm's
@@ -62,6 +62,12 @@ Theorem C16_run_sound : forall finv,
   loaded m (pc sk) i ->
   denotes i mf sk sk'.
 Proof. exact run_sound. Qed.
+
+(* every cell a step writes was unknown before the step, for every flag combination [r] (assembled
+   or not) and every machine state: the modelled VM never overwrites *)
+Theorem C16_step_writes_fresh : forall finv r m s sr,
+  vm_exec finv r m s = Some sr -> forall x w, In (x, w) (s_writes sr) -> m x = None.
+Proof. exact exec_writes_fresh. Qed.
 
 (* non-vacuity: a three-instruction loaded program
      (0,0): [ap + 0] = 7, ap++        (0,2): [ap + 0] = [ap + -1] * [ap + -1], ap++
@@ -146,3 +152,4 @@ Print Assumptions C16_assemble_total.
 Print Assumptions C16_qm31_rejected.
 Print Assumptions C16_step_sound.
 Print Assumptions C16_run_sound.
+Print Assumptions C16_step_writes_fresh.
